@@ -48,6 +48,7 @@ func checkC03(c *Ctx) {
 	poolAliasRule(c, "R-frame-owned")
 	poolResetRule(c, "R-pool-reset")
 	c03EncodeChecked(c)
+	c03EncodeFailureAnswered(c)
 	// frames written by concurrent senders to one stream must not interleave (C05/C09's rule): an interleaved frame is malformed
 	streamWriteLocked(c, "R-stream-locked", true)
 	c.R.Min("R-id-echo", 40)
@@ -301,6 +302,74 @@ func c03Version(c *Ctx) {
 		})
 	}
 	c.R.Min("R-version", 20)
+	// a request object the CALLER built (the exported SendRequest of each server) is emitted as it is: the function
+	// that takes it — or something it calls with it — fills in an empty jsonrpc member. Sibling agreement: if one
+	// server's SendRequest does, all do.
+	type sr struct {
+		fn    *ssa.Function
+		fills bool
+	}
+	var srs []sr
+	for _, T := range c.serverTypes() {
+		for _, fn := range c.methodsWithPrefix(T, "SendRequest") {
+			var p *ssa.Parameter
+			for _, q := range fn.Params {
+				if ir.TypeStr(q.Type()) == "*mcp.JSONRPCRequest" {
+					p = q
+				}
+			}
+			if p == nil {
+				continue
+			}
+			fills := false
+			var scan func(f *ssa.Function, v ssa.Value, d int)
+			scan = func(f *ssa.Function, v ssa.Value, d int) {
+				if d > 3 || fills {
+					return
+				}
+				ir.EachInstr(f, func(_ *ssa.BasicBlock, _ int, in ssa.Instruction) {
+					switch x := in.(type) {
+					case *ssa.Store:
+						if fa, ok := x.Addr.(*ssa.FieldAddr); ok && fa.X == v {
+							if fl, _, ok := ir.FieldOf(fa); ok && fl.Name == "JSONRPC" {
+								if sv, ok := ir.ConstStr(x.Val); ok && sv == "2.0" {
+									fills = true
+								}
+							}
+						}
+					case *ssa.Call:
+						for _, cal := range ir.Callees(c.G, x) {
+							if !c.P.IsLib(cal) {
+								continue
+							}
+							args := x.Call.Args
+							off := 0
+							if x.Call.IsInvoke() {
+								off = 1
+							}
+							for i, a := range args {
+								if a == v && i+off < len(cal.Params) {
+									scan(cal, cal.Params[i+off], d+1)
+								}
+							}
+						}
+					}
+				})
+			}
+			scan(fn, p, 0)
+			srs = append(srs, sr{fn, fills})
+		}
+	}
+	any := false
+	for _, x := range srs {
+		any = any || x.fills
+	}
+	for _, x := range srs {
+		if any {
+			c.R.Check(x.fills, "R-version", "caller-built request sent by "+fname(x.fn), c.Pos(x.fn.Pos()), "an empty jsonrpc member is set to \"2.0\" before the request is emitted",
+				sprintf("%s emits a request object built by its caller without filling in an empty jsonrpc member, although a sibling server's SendRequest does: the same call produces \"jsonrpc\":\"\" on this transport", fname(x.fn)))
+		}
+	}
 }
 
 // ------------------------------------------------------------------ R-code-class
@@ -2007,6 +2076,14 @@ func c03EncodeChecked(c *Ctx) {
 							guarded = true
 						}
 					}
+					// handed back together with the error of the same call: the caller decides
+					if r, ok := u.(*ssa.Return); ok && ev != nil {
+						for _, rv := range r.Results {
+							if rv == ev {
+								guarded = true
+							}
+						}
+					}
 					if !guarded {
 						bad = c.Pos(u.Pos())
 					}
@@ -2021,4 +2098,199 @@ func c03EncodeChecked(c *Ctx) {
 	if n == 0 {
 		c.R.Hold("R-encode-checked", "no caller-supplied interface value is encoded with json.Marshal on the server side", "", "")
 	}
+}
+
+// c03EncodeFailureAnswered (R-encode-failure-answered): the result of a handler may be unencodable. The function that
+// encodes what the dispatcher returned and writes it out must, when json.Marshal fails, still answer the request — by
+// encoding an error object instead (a second Marshal, or a helper that builds a -32603 answer). Returning the error to
+// a caller that only logs it leaves the request without any answer: over stdio the client waits until its own timeout.
+func c03EncodeFailureAnswered(c *Ctx) {
+	// functions that dispatch requests: the table-driven dispatcher's ancestors, and those comparing the method themselves
+	dispatches := func(f *ssa.Function) bool {
+		if f == nil {
+			return false
+		}
+		if c.dispatchReach()[f] {
+			return true
+		}
+		found := false
+		ir.EachInstr(f, func(_ *ssa.BasicBlock, _ int, in ssa.Instruction) {
+			if bin, ok := in.(*ssa.BinOp); ok && bin.Op == token.EQL && derivesFromMethod(bin.X) {
+				if s, ok := ir.ConstStr(bin.Y); ok && s == "tools/call" {
+					found = true
+				}
+			}
+		})
+		return found
+	}
+	fedByDispatch := func(fn *ssa.Function, p *ssa.Parameter) bool {
+		idx := -1
+		for i, q := range fn.Params {
+			if q == p {
+				idx = i
+			}
+		}
+		for _, e := range ir.Callers(c.G, fn) {
+			if e.Site == nil || !c.P.IsLib(e.Caller.Func) || idx < 0 || idx >= len(e.Site.Common().Args) {
+				continue
+			}
+			v := e.Site.Common().Args[idx]
+			for i := 0; i < 4; i++ {
+				switch x := v.(type) {
+				case *ssa.ChangeInterface:
+					v = x.X
+					continue
+				case *ssa.MakeInterface:
+					v = x.X
+					continue
+				case *ssa.Extract:
+					v = x.Tuple
+					continue
+				}
+				break
+			}
+			if call, ok := v.(*ssa.Call); ok {
+				for _, cal := range ir.Callees(c.G, call) {
+					if dispatches(cal) {
+						return true
+					}
+				}
+			}
+		}
+		return false
+	}
+	var fallback func(call ssa.CallInstruction, d int) bool
+	fallback = func(call ssa.CallInstruction, d int) bool {
+		if ir.CallName(call) == "encoding/json.Marshal" {
+			return true
+		}
+		for _, a := range call.Common().Args {
+			if n, ok := ir.ConstInt(a); ok && n == -32603 {
+				return true
+			}
+		}
+		sc := ir.StaticCallee(call)
+		if d >= 2 || sc == nil || !c.P.IsLib(sc) {
+			return false
+		}
+		found := false
+		ir.EachCall(sc, func(ic ssa.CallInstruction) {
+			if fallback(ic, d+1) {
+				found = true
+			}
+		})
+		ir.EachInstr(sc, func(_ *ssa.BasicBlock, _ int, in ssa.Instruction) {
+			if st, ok := in.(*ssa.Store); ok {
+				if n, ok := ir.ConstInt(st.Val); ok && n == -32603 {
+					found = true
+				}
+			}
+		})
+		return found
+	}
+	n := 0
+	for _, fn := range c.P.LibFns {
+		if clientSide(c, fn) {
+			continue
+		}
+		ir.EachInstr(fn, func(_ *ssa.BasicBlock, _ int, in ssa.Instruction) {
+			call, ok := in.(*ssa.Call)
+			if !ok || ir.CallName(call) != "encoding/json.Marshal" || call.Referrers() == nil {
+				return
+			}
+			arg := call.Call.Args[0]
+			for {
+				if ci, ok := arg.(*ssa.ChangeInterface); ok {
+					arg = ci.X
+					continue
+				}
+				break
+			}
+			p, ok := arg.(*ssa.Parameter)
+			if !ok || !fedByDispatch(fn, p) {
+				return
+			}
+			var errv ssa.Value
+			for _, r := range *call.Referrers() {
+				if ex, ok := r.(*ssa.Extract); ok && ex.Index == 1 {
+					errv = ex
+				}
+			}
+			n++
+			construct := "failed encoding of a handler's result in " + fname(fn)
+			if errv == nil {
+				c.R.Violate("R-encode-failure-answered", construct, c.Pos(call.Pos()), sprintf("%s ignores the error of encoding what the dispatcher returned", fname(fn)))
+				return
+			}
+			var failEdge *ssa.BasicBlock
+			for _, b := range fn.Blocks {
+				if len(b.Instrs) == 0 {
+					continue
+				}
+				if ifi, ok := b.Instrs[len(b.Instrs)-1].(*ssa.If); ok {
+					if v, op, ok := nilCompare(ifi.Cond); ok && v == errv {
+						if op == token.NEQ {
+							failEdge = b.Succs[0]
+						} else {
+							failEdge = b.Succs[1]
+						}
+					}
+				}
+			}
+			if failEdge == nil {
+				c.R.Violate("R-encode-failure-answered", construct, c.Pos(call.Pos()), sprintf("%s never tests the error of encoding what the dispatcher returned", fname(fn)))
+				return
+			}
+			stops := map[*ssa.BasicBlock]bool{}
+			for _, b := range fn.Blocks {
+				for _, in2 := range b.Instrs {
+					if ci, ok := in2.(ssa.CallInstruction); ok && ci != ssa.CallInstruction(call) && fallback(ci, 0) {
+						stops[b] = true
+					}
+				}
+			}
+			// (a type switch over the value may single out the answer types: what is none of them — a notification the
+			// server sends — needs no answer, so the "is not of this type" edges are not followed)
+			okFail := stops[failEdge]
+			if !okFail {
+				okFail = true
+				seenB := map[*ssa.BasicBlock]bool{}
+				stack := []*ssa.BasicBlock{failEdge}
+				for len(stack) > 0 && okFail {
+					b := stack[len(stack)-1]
+					stack = stack[:len(stack)-1]
+					if seenB[b] || stops[b] {
+						continue
+					}
+					seenB[b] = true
+					if len(b.Succs) == 0 {
+						okFail = false
+						break
+					}
+					skip := -1
+					if ifi, ok := b.Instrs[len(b.Instrs)-1].(*ssa.If); ok {
+						if ex, ok := ifi.Cond.(*ssa.Extract); ok && ex.Index == 1 {
+							if ta, ok := ex.Tuple.(*ssa.TypeAssert); ok {
+								tv := ta.X
+								if ci, ok := tv.(*ssa.ChangeInterface); ok {
+									tv = ci.X
+								}
+								if tv == ssa.Value(p) {
+									skip = 1
+								}
+							}
+						}
+					}
+					for i, sb := range b.Succs {
+						if i != skip {
+							stack = append(stack, sb)
+						}
+					}
+				}
+			}
+			c.R.Check(okFail, "R-encode-failure-answered", construct, c.Pos(call.Pos()), "an error answer is encoded instead",
+				sprintf("%s encodes what the dispatcher returned and, when that fails, returns without encoding an error answer in its place: the request gets no answer at all (over stdio the client waits until its own timeout)", fname(fn)))
+		})
+	}
+	c.R.Min("R-encode-failure-answered", 2)
 }
